@@ -205,6 +205,24 @@ func ExprPrograms(atoms []string) []string {
 var coreCache []string
 
 // Core returns the core corpus K (deterministic order, no duplicates).
+// CoreBase is Core without the mechanically generated name/scope families (ScopeExit, KeywordIdents,
+// ChildAsField, CollidingNames), whose members differ from each other in identifiers only.
+func CoreBase() []string {
+	fam := map[string]bool{}
+	for _, f := range [][]string{ScopeExit(), KeywordIdents(), ChildAsField(), CollidingNames()} {
+		for _, s := range f {
+			fam[s] = true
+		}
+	}
+	var out []string
+	for _, s := range Core() {
+		if !fam[s] {
+			out = append(out, s)
+		}
+	}
+	return out
+}
+
 func Core() []string {
 	if coreCache != nil {
 		return coreCache
